@@ -151,7 +151,12 @@ def layout(out, ed):
                     phys.append((i, ind + "  ! comment between conditional lines"))
                 elif sent[i] == 3:
                     phys.append((i, ""))
-                phys.append((i, "!$ " + ind + "  & " + sp[1]))
+                if sent[i] == 4:
+                    phys.append((i, "!$" + sp[1]))
+                elif sent[i] == 5:
+                    phys.append((i, "!$&" + sp[1]))
+                else:
+                    phys.append((i, "!$ " + ind + "  & " + sp[1]))
             else:
                 phys.append((i, "!$ " + ind + render.stmt_line(s, indent=False)))
         elif i in brk:
